@@ -860,6 +860,11 @@ func (in *Interp) load(st *State, addr AV, t types.Type, pos token.Pos) AV {
 		if v, ok := in.Fields[key]; ok {
 			return in.refined(st, v)
 		}
+		// a configured field that has moved into (or out of) an embedded struct: r.x.f is given, r.x.ctx.f is
+		// read (or the other way round) — same root, same field name, one path a subsequence of the other
+		if v, ok := in.fieldByShape(key); ok {
+			return in.refined(st, v)
+		}
 		name := key
 		if st.epoch > 0 && !strings.HasPrefix(key, "imm:") && !(in.HavocKeep != nil && in.HavocKeep(key)) {
 			name = fmt.Sprintf("%s@%d", key, st.epoch)
@@ -2200,4 +2205,44 @@ func boundClosures(st *State, cl Closure, depth int) []AV {
 		}
 	}
 	return out
+}
+
+// fieldByShape finds the configured field whose path agrees with key on the root and on the field name and is
+// a subsequence / supersequence of it (fields regrouped into an embedded struct); ambiguous matches give none.
+func (in *Interp) fieldByShape(key string) (AV, bool) {
+	if len(in.Fields) == 0 || strings.HasPrefix(key, "*") || strings.Contains(key, "[") {
+		return nil, false
+	}
+	kp := strings.Split(key, ".")
+	if len(kp) < 2 {
+		return nil, false
+	}
+	isSubseq := func(a, b []string) bool { // a subsequence of b
+		i := 0
+		for _, x := range b {
+			if i < len(a) && a[i] == x {
+				i++
+			}
+		}
+		return i == len(a)
+	}
+	var found AV
+	n := 0
+	for k, v := range in.Fields {
+		fp := strings.Split(k, ".")
+		if len(fp) < 2 || len(fp) == len(kp) || fp[0] != kp[0] || fp[len(fp)-1] != kp[len(kp)-1] {
+			continue
+		}
+		if isSubseq(fp, kp) || isSubseq(kp, fp) {
+			if found != nil && found.String() == v.String() {
+				continue // the same value configured under two spellings of the path
+			}
+			found = v
+			n++
+		}
+	}
+	if n == 1 {
+		return found, true
+	}
+	return nil, false
 }
